@@ -791,6 +791,8 @@ func (e *Engine) eval(x Expr, env *evalEnv) Val {
 			srt, vt = "Bool", specBool
 		case "addr":
 			srt, vt = "Addr", addrT
+		case "bytes":
+			srt, vt = "BV", bvT
 		}
 		e.qn++
 		bv := fmt.Sprintf("%s_q%d", mangle(y.Var), e.qn)
@@ -1062,6 +1064,32 @@ func (e *Engine) evalCall(y *ECall, env *evalEnv) Val {
 		return Val{S: app("div", arg(0).S, arg(1).S), T: specInt}
 	case "mod":
 		return Val{S: app("mod", arg(0).S, arg(1).S), T: specInt}
+	case "decmul", "decquo", "dectrunc":
+		// LegacyDec operations as the same uninterpreted functions the library specs use; their defining
+		// (relational) facts are asserted for ground arguments
+		var as []string
+		for i := range y.Args {
+			as = append(as, arg(i).S)
+		}
+		ground := true
+		for _, bvv := range env.bound {
+			if isBoundVarName(bvv.S) && hasAnyToken(strings.Join(as, " "), []string{bvv.S}) {
+				ground = false
+			}
+		}
+		r := app(y.Fn, as...)
+		if ground {
+			switch y.Fn {
+			case "decmul":
+				e.vc.assume(app("is_round_he", app("*", as[0], as[1]), r))
+			case "decquo":
+				x := app("decquo_x", as[0], as[1])
+				e.vc.assume(implies(not(eq(as[1], "0")), and(app("is_tdiv", app("*", as[0], "1000000000000000000000000000000000000"), as[1], x), app("is_round_he", x, r))))
+			case "dectrunc":
+				e.vc.assume(app("is_tdiv", as[0], "1000000000000000000", r))
+			}
+		}
+		return Val{S: r, T: specInt}
 	case "round_he", "dec_mul", "dec_quo", "dec_trunc", "dec_of_int", "dec_quo_trunc":
 		var as []string
 		for i := range y.Args {
@@ -1084,6 +1112,16 @@ func (e *Engine) evalCall(y *ECall, env *evalEnv) Val {
 					return Val{S: e.heap(env.logState(), hn, e.heapSorts[hn]), T: t, Log: true}
 				}
 				return e.evalErr("contract-stale: no call of " + f.Name + " on any path")
+			}
+		}
+	case "argsum":
+		// argsum(F, p): the sum of the values passed for numeric parameter p over all calls of F so far
+		if len(y.Args) == 2 {
+			f, ok1 := y.Args[0].(*EIdent)
+			p, ok2 := y.Args[1].(*EIdent)
+			if ok1 && ok2 {
+				sn := "callsum_" + mangle(f.Name) + "_" + mangle(p.Name)
+				return Val{S: e.heap(env.logState(), sn, "Int"), T: specInt}
 			}
 		}
 	case "arg":
@@ -1359,6 +1397,8 @@ func (e *Engine) evalSum(y *EQuant, env *evalEnv, bv string, body Val) Val {
 				switch {
 				case v.T == addrT:
 					srt = "Addr"
+				case v.T == bvT:
+					srt = "BV"
 				case kindOf(v.T) == kStr:
 					srt = "Str"
 				case kindOf(v.T) == kBool:
